@@ -13,7 +13,7 @@ CHECKS = {
             "DESIGN.md section 4, C01"),
 
     "C02": ("property-based differential testing of whole battles against a reference scheduler (rapid), plus Run-vs-RunCycle relation",
-            "Generated search: random 1..4-warrior battles are stepped next to a reference MARS scheduler; return values, executed (warrior,pc) lists, queues, alive flags, counters and the whole core are compared after every cycle, a second round after Reset on the same simulator, and Run() on a fresh simulator must reach the same final state; rare scale classes (cores above 2^16 cells, melees of up to 100 warriors, offsets near 2^64, thousands of cycles with a splitter).",
+            "Generated search: random 1..4-warrior battles are stepped next to a reference MARS scheduler; return values, executed (warrior,pc) lists, queues, alive flags, counters and the whole core are compared after every cycle, a second round after Reset on the same simulator, and Run() on a fresh simulator must reach the same final state; rare scale classes (cores above 2^16 cells, melees of up to 300 warriors, offsets near 2^64, thousands of cycles with a splitter); sub-check hugequeues: a splitter fills its queue under process limits 1025..140000 and the queue is compared in order with the reference.",
             "Trusts harness/ref (scheduler written from the property statement and the ICWS'94 draft). Cores mostly 3..60.",
             "DESIGN.md section 4, C02"),
 
@@ -22,7 +22,7 @@ CHECKS = {
             "Trusts harness/rc MeaningOf (textual EQU substitution, own expression evaluator, ICWS'94 default-modifier table with NOP->B, '88 table). Results outside int32 are discarded (C07 owns that boundary).",
             "DESIGN.md section 4, C03"),
     "C05": ("property-based robustness testing in an isolated, killable worker process with goroutine-leak inspection (rapid); native fuzzing in the thorough tier",
-            "Generated search over valid, mutated, soup and adversarial inputs; every case must return within a deadline, not panic or kill the process, return error xor warrior, and leave no gmars goroutine behind; hangs are observable and shrinkable because the worker is a separate process; a quarter of the cases run 2..8 simultaneous assemblies; a rare class of very large FOR expansions with proportional deadline; a scaling sub-property compares n with 5n for structured families.",
+            "Generated search over valid, mutated, soup and adversarial inputs; every case must return within a deadline, not panic or kill the process, return error xor warrior, and leave no gmars goroutine behind; hangs are observable and shrinkable because the worker is a separate process; a quarter of the cases run 2..8 simultaneous assemblies; a rare class of very large FOR expansions with proportional deadline; a scaling sub-property compares n with 5n for structured families; sub-check big: texts of up to 9 million tokens, bare or inside a small FOR block.",
             "Time bound decided as a 5 s deadline and a 256 MiB heap cap for inputs whose own expansion estimate is <= 2*10^4 tokens (larger inputs discarded); proportionality decided by sub-checks scaling (sweep of about 40 structured input families assembled at n and 5n lines, n = 12000..16000: more than 12x the time for 5x the input is a violation) replicated (the same relation on K and 5K renamed copies of generated programs) and randomscaling (the same relation on drawn families: a drawn unit of line templates repeated n and 5n times). Super-linear behaviour outside those families and below the deadline is not detected.",
             "DESIGN.md section 4, C05"),
     "C06": ("property-based testing of a validity predicate over accepted outputs (rapid); native fuzzing in the thorough tier",
